@@ -291,7 +291,7 @@ impl<'ast> Visit<'ast> for Walker {
 
     fn visit_expr_method_call(&mut self, m: &'ast syn::ExprMethodCall) {
         // builder-style configuration calls: record their (single) argument
-        const BUILDER: [&str; 5] = ["length_field_length", "max_frame_length", "length_adjustment", "set_max_frame_length", "length_field_offset"];
+        const BUILDER: [&str; 6] = ["length_field_length", "max_frame_length", "length_adjustment", "set_max_frame_length", "length_field_offset", "split_to"];
         let name = m.method.to_string();
         if BUILDER.contains(&name.as_str()) && m.args.len() == 1 {
             let r = self.translate(&m.args[0]);
@@ -375,6 +375,17 @@ pub fn call_order(block: &syn::Block, names: &[&str]) -> Vec<String> {
         .collect();
     let mut found: Vec<(usize, String)> = vec![];
     for n in names {
+        if n.contains(' ') || *n == "while" {
+            // a token sequence (e.g. `transfer . delivery_tag = None`) instead of a call
+            let pat: Vec<&str> = n.split(' ').collect();
+            for i in 0..toks.len() {
+                if i + pat.len() <= toks.len() && pat.iter().enumerate().all(|(j, p)| toks[i + j] == *p) {
+                    found.push((i, n.to_string()));
+                    break;
+                }
+            }
+            continue;
+        }
         for (i, t) in toks.iter().enumerate() {
             if t == n && toks.get(i + 1).map(|x| x == "(").unwrap_or(false) {
                 found.push((i, n.to_string()));
